@@ -261,6 +261,22 @@ RACES = [
      "[CDemon 1 1; CDemonScope 2 1]", [("m", 1, 1), ("ms", 2, 1)],
      [rep("LX 1", 2), rep("LT 0", 5), rep("LT 1", 5), rep("LX 1", 30)],
      [("x", 1), ("d", 1, 1), ("ds", 2, 1)]),
+    # --- inside leave_all (seeds C11-9, C11-10)
+    ("another actor joins the group the exiting actor just emptied, before the exit's notifications",
+     "race j 1 1 1 | start B x 1 @leave_all.notify | start A j 1 1 2 | go B",
+     "[CJoin 1 1 [2]]", [("j", 1, 1, [1])],
+     [rep("LX 1", 8), rep("LT 0", 20), rep("LX 1", 30)],
+     [("x", 1), ("j", 1, 1, [2])]),
+    ("same in a non-default scope with a second group of that scope staying populated",
+     "race j 2 1 1;j 2 2 3 | start B x 1 @leave_all.notify | start A j 2 1 2 | go B",
+     "[CJoin 2 1 [2]]", [("j", 2, 1, [1]), ("j", 2, 2, [3])],
+     [rep("LX 1", 8), rep("LT 0", 20), rep("LX 1", 30)],
+     [("x", 1), ("j", 2, 1, [2])]),
+    ("manual leave of the exiting actor from one of six groups (the one that keeps another member) after leave_all took its memberships",
+     "race j 1 1 1;j 1 2 1;j 1 3 1;j 2 1 1;j 2 2 1;j 2 3 1,2 | start B x 1 @leave_all.taken | start A l 2 3 1 | go B",
+     "[CLeave 2 3 [1]]", [("j", 1, 1, [1]), ("j", 1, 2, [1]), ("j", 1, 3, [1]), ("j", 2, 1, [1]), ("j", 2, 2, [1]), ("j", 2, 3, [1, 2])],
+     [rep("LX 1", 5), rep("LT 0", 20), rep("LX 1", 60)],
+     [("l", 2, 3, [1]), ("x", 1)]),
     # --- explicit leave / demonitor overlapping a registration of the same actor, then the actor's REAL exit.
     # The pinned code removes the reverse-index record of a membership under the group's forward entry
     # (model: one LL step does both) and never removes the relations record of a live actor.
